@@ -380,10 +380,10 @@ impl Check for TreeProp {
         let (fx, per, _, _) = self.enum_layout(tier);
         fx * per
             + match (tier, self.id) {
-                (Tier::Quick, "C17") => 40_000,
-                (Tier::Quick, _) => 12_000,
-                (Tier::Thorough, "C17") => 400_000,
-                (Tier::Thorough, _) => 150_000,
+                (Tier::Quick, "C17") => 80_000,
+                (Tier::Quick, _) => 36_000,
+                (Tier::Thorough, "C17") => 800_000,
+                (Tier::Thorough, _) => 400_000,
             }
     }
     fn assumptions(&self) -> Vec<String> {
